@@ -913,7 +913,14 @@ func (m *Machine) callBuiltin(caller *frame, pos token.Pos, fn *ssa.Builtin, arg
 			}
 			return arg0
 		}
-		return append(args[0].([]value), args[1].([]value)...)
+		r := append(args[0].([]value), args[1].([]value)...)
+		// allocation budget: a path that keeps doubling a list is ended as a
+		// possible non-termination instead of exhausting the engine's memory
+		m.allocElems += len(r)
+		if m.allocElems > 50_000_000 {
+			panic(pathEnd{kind: "fuel", msg: "allocation budget exceeded (list elements appended on this path)"})
+		}
+		return r
 
 	case "copy":
 		src := args[1]
@@ -929,6 +936,22 @@ func (m *Machine) callBuiltin(caller *frame, pos token.Pos, fn *ssa.Builtin, arg
 
 	case "delete":
 		m.mapDelete(args[0].(*symMap), args[1])
+		return nil
+
+	case "clear":
+		switch x := args[0].(type) {
+		case []value:
+			if len(x) > 0 {
+				z := zero(fn.Type().(*types.Signature).Params().At(0).Type().Underlying().(*types.Slice).Elem())
+				for i := range x {
+					x[i] = z
+				}
+			}
+		case *symMap:
+			for _, e := range x.live() {
+				m.mapDelete(x, e.k)
+			}
+		}
 		return nil
 
 	case "print", "println":
